@@ -409,8 +409,8 @@ def check_insert_effects(chk, prog, unit, doubly, only=None):
     for f in u.functions.values():
         if only is not None and f.name not in only:
             continue
-        if re.search(r"_dup$|_item_", f.name):
-            continue
+        if re.search(r"_dup$|_item_", f.name) or classinfo.is_node_ctor(f.unit, f.name):
+            continue            # (a wrapper that only makes a node and hands it back is a constructor, not an insertion)
         news = set()
         for x in walk(f.body):
             if x.get("k") == "assign" and x.get("op") == "=":
@@ -548,7 +548,7 @@ def check_len_balance(chk, prog, unit, only=None):
     for f in u.functions.values():
         if only is not None and f.name not in only:
             continue
-        if re.search(r"_dup$|_item_", f.name):
+        if re.search(r"_dup$|_item_", f.name) or classinfo.is_node_ctor(f.unit, f.name):
             continue
         makes = [c for c in X.calls_in(f.body) if classinfo.is_node_ctor(f.unit, X.callee_name(c) or "")]
         if not makes:
